@@ -142,7 +142,7 @@ fn sub_step() -> BoxedStrategy<Step> {
     let user = prop::collection::vec(("[a-z]{0,4}", "[a-zé]{0,6}").prop_map(|(k, v)| Prop::UserProperty(k, v)), 0..3);
     let filt = (prop_oneof![8 => 1u32..30, 1 => Just(200u32), 1 => Just(70_000u32)], any::<u8>(), cgen::sub_opts());
     prop_oneof![
-        (prop::collection::vec(filt.clone(), 1..7), user.clone(), prop_oneof![2 => Just(None), 1 => prop_oneof![Just(1u32), Just(127), Just(128), Just(268_435_455)].prop_map(Some)]).prop_map(|(f, mut props, sid)| {
+        (prop::collection::vec(filt.clone(), 1..7), user.clone(), prop_oneof![2 => Just(None), 2 => prop_oneof![Just(1u32), Just(127), Just(128), Just(16_383), Just(16_384), Just(2_097_151), Just(2_097_152), Just(33_554_431), Just(33_554_432), Just(268_435_455), 1u32..=268_435_455].prop_map(Some)]).prop_map(|(f, mut props, sid)| {
             if let Some(s) = sid {
                 props.push(Prop::SubscriptionId(s));
             }
